@@ -62,6 +62,11 @@ def run_family(ctx, name, behaviours, tags, server_flags=None):
             if n == v["line"]:
                 first = json.loads(line)
                 break
+        kf = F.attribute(ctx.prop, v, evs)
+        if kf is not None:
+            ctx.count("attributed_" + kf["id"])
+            ctx.attributed[kf["id"]] = kf["what"]
+            continue
         out.append({"property": ctx.prop, "tag": v["tag"], "family": name, "behaviour": byid.get(v["tid"]),
                     "server_flags": server_flags or [], "event": first,
                     "errors": [e.get("err") for e in evs if e.get("err")][:5], "seed": ctx.seed})
@@ -72,7 +77,10 @@ def split_known(ctx, viols):
     """Exploration runs with the guards of all open findings on, so every
     violation it finds is new. The listed findings are (re)confirmed by their
     own reproducers."""
-    return viols, F.run_reproducers(ctx, ctx.prop)
+    known = F.run_reproducers(ctx, ctx.prop)
+    for k, what in ctx.attributed.items():
+        known.setdefault(k, "%s [attributed by trigger predicate] %s" % (k, what[:160]))
+    return viols, known
 
 
 def gen_pairs(ctx, typ, nsample, clients="Seq2", late="{}", maxsyncs=1, feat="{}", threshold=1000):
@@ -91,7 +99,7 @@ def gen_pairs(ctx, typ, nsample, clients="Seq2", late="{}", maxsyncs=1, feat="{}
 
 def gen_sim(ctx, name, n, depth=120, alphabet="OpsMix", clients="Seq3", editors='{"c1", "c2", "c3"}', maxedits=4,
             maxsyncs=6, feat='{"idle"}', late="{}", threshold=1000, kinds=None, init=None, weight=40, maxsess=1,
-            maxcompact=0, maxundo=0, interval=0, final="quiesce", seed_off=0):
+            maxcompact=0, maxundo=0, interval=0, final="quiesce", seed_off=0, guards=None):
     kinds = kinds or MIXKINDS
     init = MIXINIT if init is None else init
     behs = generate(ctx, "gen_sim.cfg", overrides={
@@ -103,7 +111,7 @@ def gen_sim(ctx, name, n, depth=120, alphabet="OpsMix", clients="Seq3", editors=
         )
     nc = int(clients[-1])
     return [wrap(s, "%s-%d" % (name, i), nclients=nc, kinds=kinds, init=init, family=name,
-                 threshold=threshold if threshold < 1000 else 0, interval=interval, final=final)
+                 threshold=threshold if threshold < 1000 else 0, interval=interval, final=final, guards=guards or [])
             for i, s in enumerate(behs)]
 
 
@@ -357,7 +365,85 @@ def check_C07(ctx):
     return "model_checking", fresh, known, mc_cov(ctx), ["memdb backend only", "text/tree styles: only that they do not change the content view"]
 
 
-CHECKS = {"C07": check_C07, "C01": check_C01, "C02": check_C02, "C03": check_C03, "C04": check_C04, "C06": check_C06, "C08": check_C08,
+C09_TAGS = {"WireTransparent", "SnapshotBytesTransparent", "LogReplayable", "RefEquiv", "BuildEquiv"}
+
+
+def check_C09(ctx):
+    build_harness(ctx)
+    quick = ctx.tier == "quick"
+    n = 100 if quick else 1500
+    fams = []
+    for nm, alpha, extra, w in [("arr", "OpsArr", ARR, 10), ("txt", "OpsTxt", TXT, 8), ("nest", "OpsNest", OBJ, 6),
+                                ("cnt", "OpsCntWrap", dict(kinds=["n"], init=[]), 3), ("treet", "OpsTreeText", TREE, 10), ("treee", "OpsTreeElem", TREE, 6),
+                                ("mix", "OpsMix2", {}, 40)]:
+        fams.append(dict(name="enc-" + nm, alphabet=alpha, clients="Seq3", feat='{"idle", "lateattach", "build"}', late='{"c3"}',
+                         weight=w, maxedits=4, threshold=2, interval=2, guards=["KF-ARRAYSET-GC-LEAK"], **extra))
+    fams.append(dict(name="enc-undo-arr", alphabet="OpsArrNoMove", clients="Seq2", editors=E2, feat='{"idle", "undo"}', maxundo=3, maxedits=3, weight=4, **ARR))
+    viols = sim_families(ctx, fams, C09_TAGS, n)
+    fresh, known = split_known(ctx, viols)
+    return "translation_validation", fresh, known, dict(mc_cov(ctx), programs=ctx.counters.get("traces_validated", 0),
+            disagreements_checked=ctx.counters.get("trace_events_validated", 0)), [
+        "losslessness half only: every change and document reachable through the generated histories; hostile-bytes robustness is not decided by this technique (DESIGN.md section 8)"]
+
+
+C18_TAGS = {"YsonRoundTrip", "CompactNeverFailsOnContent", "CompactionKeepsContent"}
+
+
+def check_C18(ctx):
+    build_harness(ctx)
+    quick = ctx.tier == "quick"
+    n = 100 if quick else 1500
+    feat = '{"idle", "detach", "reattach", "compact", "force", "lateattach"}'
+    fams = []
+    for nm, alpha, extra, w in [("arr", "OpsArr", ARR, 10), ("txt", "OpsTxt", TXT, 8), ("nest", "OpsNest", OBJ, 6),
+                                ("cnt", "OpsCntWrap", dict(kinds=["n"], init=[]), 3), ("treet", "OpsTreeText", TREE, 10), ("treee", "OpsTreeElem", TREE, 6),
+                                ("mix", "OpsMix2", {}, 40)]:
+        fams.append(dict(name="yson-" + nm, alphabet=alpha, clients="Seq3", feat=feat, late='{"c3"}', maxsess=3, maxcompact=2,
+                         weight=w, maxedits=3, **extra))
+    viols = sim_families(ctx, fams, C18_TAGS, n)
+    if ctx.counters.get("compactions_ok", 0) == 0:
+        raise Infra("vacuous: no compaction succeeded")
+    fresh, known = split_known(ctx, viols)
+    return "translation_validation", fresh, known, dict(mc_cov(ctx), programs=ctx.counters.get("traces_validated", 0),
+            disagreements_checked=ctx.counters.get("trace_events_validated", 0)), [
+        "reachable-state half only: YSON round trip of every log prefix of the generated histories and packs.Compact's rebuild-compare; "
+        "YSON grammar fidelity on arbitrary literals and revisions are not decided here (DESIGN.md section 8)"]
+
+
+C14_TAGS = {"UndoExact", "RedoExact", "UndoRedoNeverFails", "CloneEqRoot", "SyncNeverFails", "Converged", "RefEquiv"}
+
+
+def check_C14(ctx):
+    build_harness(ctx)
+    quick = ctx.tier == "quick"
+    n = 120 if quick else 2000
+    fams = []
+    one = '{"c1"}'
+    for nm, alpha, extra, w in [("arr", "OpsArrNoMove", ARR, 3), ("obj", "OpsObj", OBJ, 3), ("nest", "OpsNest", OBJ, 3),
+                                ("cnt", "OpsCntWrap", dict(kinds=["n"], init=[]), 2)]:
+        # single editor, the peer never edits: no concurrent remote changes
+        fams.append(dict(name="undo1-" + nm, alphabet=alpha, clients="Seq2", editors=one, feat='{"idle", "undo"}', maxundo=6, maxedits=4, weight=w, **extra))
+    softfams = []
+    for nm, alpha, extra, w in [("txt", "OpsTxtNoStyle", TXT, 4), ("treet", "OpsTreeTextNoStyle", TREE, 4), ("treee", "OpsTreeElemNoStyle", TREE, 3)]:
+        # exactness without GC (KF-UNDO-TEXT-AFTER-GC): no sync after set-up
+        fams.append(dict(name="undo1-" + nm, alphabet=alpha, clients="Seq2", editors=one, feat='{"undo"}', maxundo=6, maxedits=5, maxsyncs=0, weight=1, **extra))
+        softfams.append(dict(name="undo1s-" + nm, alphabet=alpha, clients="Seq2", editors=one, feat='{"idle", "undo"}', maxundo=6, maxedits=4, weight=w, **extra))
+    # approximate kinds: never fail, never corrupt
+    fams.append(dict(name="undo1-approx", alphabet="OpsApprox", clients="Seq2", editors=one, feat='{"idle", "undo"}', maxundo=6, maxedits=4, weight=4))
+    objfams = [f for f in fams if f["name"] in ("undo1-obj", "undo1-nest")]
+    fams = [f for f in fams if f not in objfams]
+    viols = sim_families(ctx, fams, C14_TAGS, n)
+    # object undo: exactness on the undoing replica only; what peers do with the
+    # re-used identity is known finding KF-UNDO-REUSED-IDENTITY-GC
+    viols += sim_families(ctx, objfams, {"UndoExact", "RedoExact", "UndoRedoNeverFails", "CloneEqRoot"}, n)
+    viols += sim_families(ctx, softfams, {"UndoRedoNeverFails", "CloneEqRoot", "SyncNeverFails", "LogReplayable"}, n)
+    if ctx.counters.get("undos", 0) == 0:
+        raise Infra("vacuous: no undo executed")
+    fresh, known = split_known(ctx, viols)
+    return "model_checking", fresh, known, mc_cov(ctx), ["single editor, no concurrent remote operation (the property's own premise)"]
+
+
+CHECKS = {"C07": check_C07, "C09": check_C09, "C14": check_C14, "C18": check_C18, "C01": check_C01, "C02": check_C02, "C03": check_C03, "C04": check_C04, "C06": check_C06, "C08": check_C08,
           "C10": check_C10, "C11": check_C11, "C12": check_C12, "C15": check_C15}
 
 
